@@ -323,6 +323,69 @@ func engineNotebook(ctx *Ctx) {
 					break
 				}
 			}
+			// an earlier plain save repeated with ONE thing changed: the platform list, the pipeline flag, the category, the description,
+			// or nothing at all - the notebook must hold what was given last, whichever field it is that differs
+			if !resplit && !pipelineCmd && r.Intn(6) == 0 {
+				for _, mi := range r.Perm(len(model)) {
+					m := model[mi]
+					if m.UserKeywords != nil || m.AutoDesc || strings.ContainsAny(m.Command+m.Description, "\x00") || strings.HasPrefix(m.Command, "-") ||
+						strings.ContainsAny(strings.Join(m.Keywords, ""), ",\"\n\r") {
+						continue
+					}
+					okPl := true
+					for _, pl := range m.Platforms {
+						if strings.TrimSpace(pl) == "" || strings.ContainsAny(pl, ",\"\n\r") {
+							okPl = false
+						}
+					}
+					if !okPl || (dupCmd != "" && m.Command == dupCmd) {
+						continue
+					}
+					e = c08Entry{Command: m.Command, Description: m.Description, Niche: m.Niche, Platforms: append([]string(nil), m.Platforms...),
+						Keywords: append([]string(nil), m.Keywords...), Pipeline: m.Pipeline}
+					if len(m.Keywords) == 0 {
+						e.Keywords = nil
+					}
+					what := []string{"platforms", "pipeline", "platforms+pipeline", "category", "description", "nothing"}[r.Intn(6)]
+					if strings.Contains(what, "platforms") {
+						switch {
+						case len(e.Platforms) == 0:
+							e.Platforms = []string{[]string{"linux", "macos", "windows"}[r.Intn(3)]}
+						case r.Intn(2) == 0:
+							e.Platforms = nil
+						default:
+							e.Platforms = append(e.Platforms, "solaris")
+						}
+					}
+					if strings.Contains(what, "pipeline") {
+						e.Pipeline = !e.Pipeline
+					}
+					if what == "category" {
+						e.Niche = "cat" + c08Simple(r)
+					}
+					if what == "description" {
+						e.Description = m.Description + " " + c08Simple(r)
+					}
+					args = []string{"save"}
+					if len(e.Keywords) > 0 {
+						args = append(args, "--keywords="+strings.Join(e.Keywords, ","))
+					}
+					if e.Niche != "" {
+						args = append(args, "--category="+e.Niche)
+					}
+					if len(e.Platforms) > 0 {
+						args = append(args, "--platforms="+strings.Join(e.Platforms, ","))
+					}
+					if e.Pipeline {
+						args = append(args, "--pipeline")
+					}
+					args = append(args, "--", e.Command, e.Description)
+					resplit = true
+					ctx.R.Path("re-saves-with-one-field-changed", 1)
+					ctx.R.Path("re-saves-with-one-field-changed/"+what, 1)
+					break
+				}
+			}
 			if resplit {
 				// args are complete
 			} else if pipelineCmd {
